@@ -10,7 +10,7 @@ from checks import _pathspace as ps
 ID = "C08"
 TITLE = "Incremental matching equals one-shot matching"
 MANIFEST = {
-    "text": "For every graph on 2-3 placed nodes (two alphabets) and twelve named 4-5 node graphs, every trace of length 2-4 over an "
+    "text": "For every graph on 2-3 placed nodes (two alphabets) and 26 named 4-12 node graphs, every trace of length 2-4 over an "
             "alphabet with an on-road point, an off-road point and a far outlier, and 15 configurations (3 families x non-emitting "
             "on/off x cut-offs that stop early x widths {None,1,2}): EVERY composition of the trace, i.e. all 2^(T-1)-1 ways of cutting "
             "it into successive extensions, is executed on one matcher as match(prefix), match(longer prefix, expand=True), ... and the "
